@@ -1,12 +1,22 @@
 #!/bin/bash
-# seedimport.sh <PID> <round>: import /tmp/seedout/<PID>-<round> into /verif/seeded, drop the agent's worktree, confirm, detect
-set -u
-id="$1-$2"
-cd /verif
-[ -d seeded/$id ] || cp -r /tmp/seedout/$id seeded/$id
-git -C /repo worktree remove --force /tmp/wt$2-$1 2>/dev/null
-python3 tools/seedtest.py confirm $id > /tmp/seedout/$id.confirm.log 2>&1
-echo "confirm exit $?"; tail -12 /tmp/seedout/$id.confirm.log
-python3 tools/seedtest.py detect $id > /tmp/seedout/$id.detect.log 2>&1
-echo "detect exit $?"; tail -12 /tmp/seedout/$id.detect.log
-git -C /repo status --short | head -3
+# seedimport.sh <prop> <round> [worktree]: import a sub-agent's _seed directory into /verif/seeded/<prop>-<round>,
+# confirm it in a fresh worktree (tools/seedtest.py confirm) and remove the sub-agent's worktree
+set -e
+P=$1; R=$2; WT=${3:-/tmp/s$R-$P}
+D=/verif/seeded/$P-$R
+mkdir -p $D
+cp $WT/_seed/patch.diff $D/patch.diff
+cp $WT/_seed/meta.json $D/meta.json
+demo=$(ls $WT/_seed/*.go | head -1)
+cp $demo $D/$(basename $demo)
+python3 - "$D" "$(basename $demo)" <<'PY'
+import json,sys
+d,demo=sys.argv[1],sys.argv[2]
+m=json.load(open(d+'/meta.json'))
+m['demo_file']=demo
+if m['demo_run'].startswith('go test'):
+    m['demo_run']=m['demo_run'].replace('go test','').replace('-vet=off','').replace('-count=1','').strip()
+json.dump(m,open(d+'/meta.json','w'),indent=1)
+PY
+python3 /verif/tools/seedtest.py confirm $P-$R
+git -C /repo worktree remove --force $WT
